@@ -178,7 +178,7 @@ def keyword_cases(draw):
     rows = draw(_rows(n, ["none", "scalar", "list", "list", "tuple", "ndarray"], allow_empty=True))
     split = cols["k"] != "name" and draw(st.integers(0, 3)) == 0
     return {"table": t, "delim": delim, "style": style, "rows": rows, "cols": cols, "split": split,
-            "nrows_given": draw(st.booleans())}
+            "nrows_given": draw(st.booleans()), "reused": draw(st.sampled_from([False, False, True]))}
 
 
 @st.composite
@@ -477,7 +477,24 @@ def _read_style(case, data, fname, need_full):
                 full = recfile.read(fname, data.dtype, **rk)
             res = recfile.read(fname, data.dtype, rows=rows, columns=cols, split=split, **rk)
             return res, full, shape
-        with recfile.Recfile(fname, case.get("mode", "r"), **kw) as rf:
+        if case.get("reused") and len(data.dtype.names) >= 2 and fname.endswith("t.rec"):
+            # the reader object served another file before (the same columns in reverse order, one row more)
+            # and is re-pointed with open(): nothing of the earlier file may leak into the reads below
+            names = list(data.dtype.names)
+            decoy = np.zeros(n + 1, dtype=[(nm, data.dtype[nm]) for nm in reversed(names)])
+            for nm in names:
+                decoy[nm][:n] = data[nm][::-1]
+            dname = fname[:-5] + "decoy.rec"
+            dk = {} if delim is None else {"delim": delim}
+            with recfile.Recfile(dname, "w", **dk) as w:
+                w.write(decoy)
+            rf = recfile.Recfile(dname, "r", dtype=decoy.dtype, nrows=n + 1, **dk)
+            rf.read(columns=names[0], rows=[0])
+            rf[names[-1]][0:1]
+            rf.open(fname, case.get("mode", "r"), **kw)
+        else:
+            rf = recfile.Recfile(fname, case.get("mode", "r"), **kw)
+        with rf:
             require(rf.nrows == n, "Recfile.nrows=%r for a file of %d rows", rf.nrows, n)
             if need_full:
                 full = rf.read()
